@@ -174,7 +174,9 @@ theorem C10_landed_def (l : FLink F) (pkt : List UInt8) (seq : Option Nat) (now 
           wire = (l.queue ++ [(pkt, seq, now)]).map (fun it => (l.core.connId, it.1))) ∨
        (l.regime.batchSize ≤ (l.queue ++ [(pkt, seq, now)]).length ∧ failNext.contains l.core.connId = true ∧
           l'.queue = [] ∧ l'.core.window = 20000 ∧ l'.core.connected = false ∧ l'.core.cong = l.core.cong ∧
-          wire = [])) := Iff.rfl
+          -- a failed send puts a PREFIX of the batch on the wire (none of it for a plain `failNext` injection,
+          -- the first `min k len` datagrams for `failAfter cid k`), the rest is lost
+          ∃ k, wire = ((l.queue ++ [(pkt, seq, now)]).take k).map (fun it => (l.core.connId, it.1)))) := Iff.rfl
 
 /-- **Non-interference.**  Two systems (classic, guard off, registered) whose links agree on
 `(connected, phase, window, in_flight, queue length, last_received, established, grace deadline)`
